@@ -27,7 +27,7 @@ class SimLoop(base_events.BaseEventLoop):
         self._asleep = False
         self._woken = False
         self.iterations = 0
-        world.timer_sources.append(self._next_timer)
+        world.timer_sources.append(self._next_timer_the_world_may_wait_for)
 
     # -- clock -------------------------------------------------------------
     def time(self):
@@ -57,6 +57,16 @@ class SimLoop(base_events.BaseEventLoop):
         if sch:
             return sch[0]._when
         return None
+
+    def _next_timer_the_world_may_wait_for(self):
+        """what the world's clock may jump to when nothing is runnable.  A loop that is not idle at that moment is blocked
+        INSIDE a handle (waiting for another thread): it fires no timer before that wait ends, so a timer of its that is
+        already due is not something the clock can be moved "to" - the jump would leave it where it is, for ever (seen:
+        .webc on the klong loop waiting for aiohttp's shutdown time-out on the io loop, with a due timer of its own)."""
+        t = self._next_timer()
+        if t is not None and t <= self.world.now and not self._asleep and self.actor is not None and self.actor.state != "done":
+            return None
+        return t
 
     def _io_ready(self):
         if self._inbox:
